@@ -19,6 +19,9 @@ class Protocol(Component):
     def init(self, sock=None, server=None, **kwargs):
         self.__server = server
         self.__sock = sock
+        # calls waiting for their result, by call id: one table per connection
+        # (the ids are counted per connection, too)
+        self.__events = {}
         self.__receive_event_firewall = kwargs.get('receive_event_firewall', None)
         self.__send_event_firewall = kwargs.get('send_event_firewall', None)
 
